@@ -119,6 +119,18 @@ func loadCorpus() {
 		qcase{text: "match (a)-[r:EdgeKind2|EdgeKind1]->(b:NodeKind2:NodeKind1) return r"},
 		qcase{text: "match (a:NodeKind2:NodeKind1)-[r]->(b) where b:NodeKind2:NodeKind1 return a, b"},
 	)
+	rich = append(rich,
+		// quantifiers without a MATCH pattern; non-literal SKIP / LIMIT
+		qcase{text: "return any(x in [1,2] where x = 1)"},
+		qcase{text: "with [1,2] as l return all(x in l where x > 0)"},
+		qcase{text: "return none(x in [1] where x = 1)"},
+		qcase{text: "return single(x in [1] where x = 1)"},
+		qcase{text: "match (n) return any(x in [1,2] where x = 1)"},
+		qcase{text: "match (n) return n skip $s limit $l", params: map[string]any{"s": int64(1), "l": int64(2)}},
+		qcase{text: "match (n) return n limit 5 + 5"},
+		qcase{text: "match (n) return n limit -1"},
+		qcase{text: "match (n) with n skip $s limit 3 return n", params: map[string]any{"s": int64(1)}},
+	)
 	corpus = append(corpus, rich...)
 	// parseable calls of the functions the translator knows with the wrong number of arguments (none, two,
 	// three): unsupported shapes are answered with an error, like everything else
